@@ -127,8 +127,14 @@ func (s *Shape) GoType(t *rs.Type) reflect.Type {
 	switch t.Kind {
 	case "enum":
 		g = reflect.TypeOf("")
-		if t.EnumRepr == "int" && !s.Plain && !s.WideScalars && s.R.Bool() {
-			g = kindType([]reflect.Kind{reflect.Int, reflect.Int8, reflect.Int32, reflect.Int64, reflect.Uint8, reflect.Uint16, reflect.Uint64}[s.R.Intn(7)])
+		if t.EnumRepr == "int" && !s.Plain && s.R.Bool() { // (also under WideScalars: the member values fit every kind drawn here)
+			kinds := []reflect.Kind{reflect.Int, reflect.Int8, reflect.Int32, reflect.Int64, reflect.Uint8, reflect.Uint16, reflect.Uint64}
+			for _, v := range t.EnumInt {
+				if v < 0 {
+					kinds = kinds[:4] // a negative member value: signed kinds only
+				}
+			}
+			g = kindType(kinds[s.R.Intn(len(kinds))])
 		}
 	case "list":
 		e := s.GoType(s.TS.T(t.ValueType))
